@@ -108,6 +108,10 @@ def opMV (C : Ctx) (name : String) (args : List String) : Option String := do
   | "powint", [eps, k, a] => some (showExc (C.powInt (← parseRat eps) (← parseMV a) (← k.toInt?)))
   | "hitzernum", [a] => match C.hitzerNumerator (← parseMV a) with
       | some x => some (showMV x) | none => some "err NotImplementedError"
+  | "cconst", [] => some (";".intercalate ([C.cEp, C.cEn, C.cEo, C.cEinf, C.cE0, C.cIbase].map showMV))
+  | "cup", [a] => some (showMV (C.cUp (← parseMV a)))
+  | "chomo", [a] => some (showExc (C.cHomo (← parseMV a)))
+  | "cdown", [a] => some (showExc (C.cDown (← parseMV a)))
   | "revsigns", [] => some (showInts C.revSigns.toList)
   | "gisigns", [] => some (showInts C.giSigns.toList)
   | "lcompsigns", [] => some (showInts C.leftCompSigns.toList)
